@@ -188,31 +188,54 @@ def run_tlc(module, cfg_text, files, workers=1, timeout=3600, extra=(), heap="8g
 T1_CFG = "SPECIFICATION Spec\nINVARIANT Accepted\nCHECK_DEADLOCK FALSE\n"
 
 
-def validate_t1(groups_path, tcase, obs_paths, shards=8, timeout=3600, module="TraceT1", obsname="obs.ndjson", lines=None, min_chunk=200):
-    """TraceT1 (or another trace module of the same shape) on the concatenated observations, sharded over
-    several TLC processes.  returns (divergences, totals)"""
-    if lines is None:
-        lines = []
+def validate_t1(groups_path, tcase, obs_paths, shards=8, timeout=3600, module="TraceT1", obsname="obs.ndjson", lines=None, min_chunk=200,
+                max_chunk=40000):
+    """TraceT1 (or another trace module of the same shape) on the concatenated observations, streamed into shard
+    files of at most max_chunk lines and validated by a pool of TLC processes.  returns (divergences, totals)"""
+    sd = tempfile.mkdtemp(prefix="shards-", dir=workdir())
+    files, counts = [], []
+    cur, n = None, 0
+
+    def src():
+        if lines is not None:
+            for ln in lines:
+                yield ln
+        else:
+            for p in obs_paths:
+                with open(p) as f:
+                    for ln in f:
+                        yield ln
+    total = 0
+    if lines is not None:
+        total = len(lines)
+    else:
         for p in obs_paths:
             with open(p) as f:
-                lines.extend(f.readlines())
-    if not lines:
+                total += sum(1 for _ in f)
+    if total == 0:
         raise Inconclusive("no observations")
-    shards = max(1, min(shards, len(lines) // min_chunk or 1))
-    chunk = (len(lines) + shards - 1) // shards
+    nsh = max(1, min(shards, total // min_chunk or 1))
+    chunk = min(max_chunk, (total + nsh - 1) // nsh)
+    for ln in src():
+        if cur is None or n >= chunk:
+            if cur:
+                cur.close()
+                counts.append(n)
+            files.append(os.path.join(sd, "shard%d.ndjson" % len(files)))
+            cur, n = open(files[-1], "w"), 0
+        cur.write(ln if ln.endswith("\n") else ln + "\n")
+        n += 1
+    if cur:
+        cur.close()
+        counts.append(n)
     tc = json.dumps(tcase)
-    jobs = []
-    for s in range(shards):
-        part = lines[s * chunk:(s + 1) * chunk]
-        if part:
-            jobs.append("".join(part))
 
-    def one(txt):
-        return run_tlc(module, T1_CFG, {"groups.ndjson": ("path", groups_path), "tcase.json": ("text", tc), obsname: ("text", txt)},
-                       workers=1, timeout=timeout, heap="6g")
-    results = parallel(one, jobs, workers=len(jobs))
+    def one(path):
+        return run_tlc(module, T1_CFG, {"groups.ndjson": ("path", groups_path), "tcase.json": ("text", tc), obsname: ("path", path)},
+                       workers=1, timeout=timeout, heap="5g")
+    results = parallel(one, files, workers=min(12, len(files)))
     div, n, states, trans = [], 0, 0, 0
-    for r, txt in zip(results, jobs):
+    for r, cnt in zip(results, counts):
         done = None
         for ln in r["out"].splitlines():
             m = re.search(r'"(DIVERGE|DONE) (.*)"$', ln)
@@ -223,9 +246,10 @@ def validate_t1(groups_path, tcase, obs_paths, shards=8, timeout=3600, module="T
                 div.append(js)
             else:
                 done = js
-        if done is None or done["n"] != txt.count("\n"):
+        if done is None or done["n"] != cnt:
             raise Inconclusive("TLC did not consume every observation:\n" + r["out"][-3000:])
         n += done["n"]
         states += r.get("distinct", 0)
         trans += r.get("generated", 0)
+    shutil.rmtree(sd, ignore_errors=True)
     return div, dict(n=n, states=states, transitions=trans)
